@@ -94,6 +94,16 @@ func genStorage(c *Ctx, groupBy bool) any {
 	if r.Chance(1, 4) {
 		sp.WeirdNames(r)
 	}
+	var nameJoin []string // p, q, p+sep+q: column names that a joined-string key of a column LIST confuses
+	if groupBy && len(sp.Cols) >= 3 && len(sp.Cols) < 20 && r.Chance(1, 8) {
+		sep := []string{",", ", ", " ", ";", "|", "\x1f", "/", ":", "\t", "="}[r.Intn(10)]
+		p, q := string(sp.Cols[0].Name), string(sp.Cols[1].Name)
+		sp.Cols[2].Name = S(p + sep + q)
+		nameJoin = []string{p, q, p + sep + q, q + sep + p}
+		if len(sp.Cols) >= 4 {
+			sp.Cols[3].Name = S(q + sep + p)
+		}
+	}
 	cs.Data.Spec = sp
 	// a seeded non-empty subset of the writers
 	for _, w := range writerKinds {
@@ -118,9 +128,21 @@ func genStorage(c *Ctx, groupBy bool) any {
 		nq = 25
 	}
 	for i := 0; i < nq; i++ {
-		q := &Query{Expr: GenExpr(r, si, r.Range(1, 6), ExprOpts{MaxArity: 5, UnknownCol: r.Chance(1, 10)})}
+		depth, arity := r.Range(1, 6), 5
+		if sp.Heavy() && depth > 2 {
+			depth, arity = 2, 4 // hundreds of 64 KiB operands make a 40 MiB query
+		}
+		q := &Query{Expr: GenExpr(r, si, depth, ExprOpts{MaxArity: arity, UnknownCol: r.Chance(1, 10)})}
 		if groupBy {
 			q.GroupBy = GenGroupBy(r, si, 6, true)
+			if nameJoin != nil && i%4 == 1 {
+				// colliding lists next to each other on the same open index, in both orders
+				lists := [][]S{{S(nameJoin[0]), S(nameJoin[1])}, {S(nameJoin[2])}, {S(nameJoin[1]), S(nameJoin[0])}, {S(nameJoin[3])}}
+				q.GroupBy = lists[(i/4)%4]
+				if len(si.cols) > 0 && r.Chance(1, 3) {
+					q.GroupBy = append(append([]S{}, q.GroupBy...), S(si.cols[r.Intn(len(si.cols))]))
+				}
+			}
 		}
 		cs.Queries = append(cs.Queries, q)
 	}
@@ -501,9 +523,22 @@ func genC08(c *Ctx) any {
 	cs := &C08Case{}
 	ni := r.Range(1, 3)
 	base := GenDataSpec(c.Rand("data"), r.Range(1, 150), false)
+	twins := r.Chance(1, 6)
+	if twins {
+		// indexes that look alike from afar: a column with the same (large) NUMBER of distinct values in every
+		// index, but different values (the value texts of this kind depend on the dataset seed)
+		card := []int{2, 17, 255, 256, 257, 300, 1000, 1024}[r.Intn(8)]
+		base.N = card
+		base.Cols = append(base.Cols, ColSpec{Name: "hc", Card: card, Shape: "unique", Kind: []string{"utf8", "mixed"}[r.Intn(2)]})
+		if ni < 2 {
+			ni = 2
+		}
+	}
 	for i := 0; i < ni; i++ {
 		sp := *base
-		if i > 0 {
+		if i > 0 && twins {
+			sp.Seed = r.U64() | 1
+		} else if i > 0 {
 			sp.Seed = r.U64() | 1 // same columns, different rows
 			sp.N = r.Range(1, 150)
 			if len(base.Cols) > 1 && r.Chance(1, 3) {
@@ -516,9 +551,15 @@ func genC08(c *Ctx) any {
 		cs.Opens = append(cs.Opens, genOpenCfg(r, false))
 	}
 	si := infoOf(base.Expand())
-	cs.Q = &Query{Expr: GenExpr(r, si, r.Range(0, 3), ExprOpts{MaxArity: 3})}
+	cs.Q = &Query{Expr: GenExpr(r, si, r.Range(0, 3), ExprOpts{MaxArity: []int{3, 3, 6}[r.Intn(3)]})}
 	if r.Chance(3, 4) {
 		cs.Q.GroupBy = GenGroupBy(r, si, 3, r.Chance(1, 10))
+	}
+	if twins && r.Chance(3, 4) {
+		cs.Q.GroupBy = []S{"hc"}
+		if r.Chance(1, 3) {
+			cs.Q.GroupBy = append(GenGroupBy(r, si, 1, false), "hc")
+		}
 	}
 	for i := 0; i < 3; i++ {
 		cs.Other = append(cs.Other, &Query{Expr: GenExpr(r, si, 2, ExprOpts{MaxArity: 3}), GroupBy: GenGroupBy(r, si, 2, false)})
